@@ -57,6 +57,10 @@ func (app *App) checkRecovery() {
 		return
 	}
 	masterNode := app.cluster.Get(master)
+	if masterNode == nil {
+		app.logger.Error().Msgf("recovery: recorded master %s is not a registered cluster host", master)
+		return
+	}
 	mgtids, err := masterNode.GTIDExecutedParsed()
 	if err != nil {
 		app.logger.Error().Err(err).Msgf("recovery: host %s failed to get master status", masterNode)
